@@ -168,6 +168,8 @@ for _name, _cls in (('MA', MA), ('MB', MB)):
   LIFTED[(_name, 'jit')] = nn.jit(_cls)
   LIFTED[(_name, 'remat')] = nn.remat(_cls)
   LIFTED[(_name, 'mapvars')] = nn.map_variables(_cls, True, _ident, _ident, mutable=True)
+  # a second rendering of the identity map: a read-only view (mutable=False, init=False) of a collection the programs never use
+  LIFTED[(_name, 'mapvars_ro')] = nn.map_variables(_cls, 'unused_collection', _ident, mutable=False)
 
 
 def obs_kinds(prog_items, out=None):
